@@ -276,6 +276,17 @@ func keyCmp(cx *pathCtx, a, b []value, n int) int {
 	return 0
 }
 
+// keyEq reports whether the first n components are equal (no ordering of
+// symbolic strings is needed for equality lookups).
+func keyEq(cx *pathCtx, a, b []value, n int) bool {
+	for i := 0; i < n; i++ {
+		if !partEq(cx, a[i], b[i]) {
+			return false
+		}
+	}
+	return true
+}
+
 type keyedRow struct {
 	row *mRow
 	key []value
@@ -494,7 +505,7 @@ func memQuery(fr *frame, args []value, mode string) []*mRow {
 		var matched []keyedRow
 		for _, r := range tx.readTable(table).rows {
 			k, ok := rowKey(cx, idx, r.obj)
-			if ok && keyCmp(cx, k, key, len(key)) == 0 {
+			if ok && keyEq(cx, k, key, len(key)) {
 				matched = append(matched, keyedRow{r, k})
 			}
 		}
